@@ -341,6 +341,7 @@ def gen_program(rng, cfg, n_ops=None, weights=None):
         keypool = {0: [[1, 1], [1, 2], [2, 1]], 1: ['a', 'b']}
     links = set()
     gone_in_tx = {}
+    committed = {}
     if cfg.get('manualtx') and rng.random() < 0.5:
         ops.append(['manualtx'])
     for _ in range(n):
@@ -415,9 +416,13 @@ def gen_program(rng, cfg, n_ops=None, weights=None):
         elif r < 0.94:
             ops.append(['commit'])
             gone_in_tx = {}
+            committed = dict(exists)
         elif r < 0.97:
             ops.append(['rollback'])
-            exists = {}       # the guide is reset; later ops may hit absent keys (malformed stream)
+            # the guide is reset; later ops may hit absent keys (malformed stream). In a hierarchy the guide goes back
+            # to the committed state instead: with one key space for all classes a reset guide would make the
+            # program re-use the key of a committed entity for another class
+            exists = dict(committed) if shape == 'inh' else {}
             links = set()
             gone_in_tx = {}
         else:
@@ -805,7 +810,7 @@ class InjectedFault(Exception):
     pass
 
 
-def run_program(env, cfg, prog, record=True, plain=False, fault=None):
+def run_program(env, cfg, prog, record=True, plain=False, fault=None, emulate_active_history=False):
     """Execute prog on the real code. Returns dict(trace, snaps, outcomes).
     fault = dict(first=i, last=j, n=k): while the ops i..j run, the k-th database statement raises;
     the application then rolls back and skips the rest of ops i..j."""
@@ -895,6 +900,11 @@ def run_program(env, cfg, prog, record=True, plain=False, fault=None):
                     if o is None:
                         outcomes.append('skip')
                         continue
+                    if emulate_active_history and s.autoflush and any(k in sa.inspect(o).unloaded for k in vals):
+                        # what active_history does in the versioned run: assigning an unloaded attribute loads the old
+                        # value first, and that load autoflushes (used only to ATTRIBUTE a twin difference to the
+                        # known finding F-C07-active-history-autoflush)
+                        s.flush()
                     for k, v in vals.items():
                         setattr(o, k, v)
                 elif kind == 'del':
@@ -915,7 +925,8 @@ def run_program(env, cfg, prog, record=True, plain=False, fault=None):
                         s.expunge(held)         # a clean, fully loaded object: drop it so that the base-class load is partial
                     base = sa.inspect(classes[c]).base_mapper.class_
                     o = s.get(base, coerce_key(env, c, key))
-                    if o is None or not isinstance(o, classes[c]):
+                    if o is None or type(o) is not classes[c]:
+                        # absent, or an entity of ANOTHER class of the hierarchy under this key (see lookup)
                         outcomes.append('skip')
                         continue
                     s.delete(o)
@@ -1189,6 +1200,15 @@ def _worker(chunk):
                 out[idx]['plain_outcomes'] = r['outcomes']
                 out[idx]['plain_live'] = r['final_live']
                 out[idx]['plain_exc'] = r['exc']
+                if cfg.get('autoflush') and twin_diffs(out[idx]) != (0, False):
+                    # attribution experiment: the unversioned twin again, flushing where active_history would autoflush
+                    conn = env.connection
+                    env.Base.metadata.drop_all(conn)
+                    env.Base.metadata.create_all(conn)
+                    conn.commit()
+                    r = run_program(env, cfg, prog, record=False, plain=True, emulate_active_history=True)
+                    out[idx]['plain_ah_outcomes'] = r['outcomes']
+                    out[idx]['plain_ah_live'] = r['final_live']
     return [(idx, o) for idx, o in out.items()]
 
 
